@@ -53,6 +53,9 @@ package parser
 //@   may_panic
 //@ func ConvertToIntree
 //@   prop C08
+//@   local intreeLog *undo.BranchUndoLog
+//@   local undoSqlLog undo.SQLUndoLog
+//@   local undoRow types.RowImage
 //@   requires protoLog != nil
 //@   let l := some(int, "l")
 //@   let r := some(int, "r")
